@@ -38,6 +38,18 @@ func refShape(s Shape, v vec) float64 {
 			out[k] = math.Max(e, 0)
 		}
 		return s.S * (vlen(out) + math.Min(inside, 0))
+	case "multiline": // union of capsules of one radius
+		m := math.Inf(1)
+		for i := 1; i < len(s.Pts); i++ {
+			m = math.Min(m, refCapsule(vec(s.Pts[i-1]), vec(s.Pts[i]), s.R, s.R, v))
+		}
+		return s.S * m
+	case "vline": // union of rounded cones
+		m := math.Inf(1)
+		for i := 1; i < len(s.Pts); i++ {
+			m = math.Min(m, refCapsule(vec(s.Pts[i-1]), vec(s.Pts[i]), s.Rs[i-1], s.Rs[i], v))
+		}
+		return s.S * m
 	default: // capsule around the segment p-q
 		ab := vsub(q, p)
 		l2 := vdot(ab, ab)
@@ -50,6 +62,32 @@ func refShape(s Shape, v vec) float64 {
 	}
 }
 
+// signed distance of the union of the balls of radius r1 + t (r2 - r1) around a + t (b - a), t in [0,1]
+// (capsule for r1 = r2, rounded cone otherwise): min over t of |v - c(t)| - r(t), a convex function of t whose
+// stationary point has a closed form
+func refCapsule(a, b vec, r1, r2 float64, v vec) float64 {
+	ab := vsub(b, a)
+	l := vlen(ab)
+	if l == 0 || math.Abs(r1-r2) >= l {
+		// one end ball contains the other
+		if r1 >= r2 {
+			return vlen(vsub(v, a)) - r1
+		}
+		return vlen(vsub(v, b)) - r2
+	}
+	pa := vsub(v, a)
+	u := vdot(pa, ab) / l // coordinate along the axis
+	h2 := vdot(pa, pa) - u*u
+	if h2 < 0 {
+		h2 = 0
+	}
+	h := math.Sqrt(h2) // distance from the axis
+	k := (r1 - r2) / l
+	t := (u - h*k/math.Sqrt(1-k*k)) / l
+	t = math.Min(1, math.Max(0, t))
+	return math.Sqrt(h2+(u-t*l)*(u-t*l)) - (r1 + t*(r2-r1))
+}
+
 // declared domain of one member (sphere.go, cube.go, line.go)
 func refDomain(s Shape) (vec, vec) {
 	p, q := vec(s.P), vec(s.Q)
@@ -60,6 +98,18 @@ func refDomain(s Shape) (vec, vec) {
 			lo[k], hi[k] = p[k]-s.S*s.R, p[k]+s.S*s.R
 		case "box":
 			lo[k], hi[k] = p[k]-q[k]/2-s.S/2, p[k]+q[k]/2+s.S/2
+		case "multiline":
+			lo[k], hi[k] = math.Inf(1), math.Inf(-1)
+			for _, pt := range s.Pts {
+				lo[k], hi[k] = math.Min(lo[k], pt[k]-s.R*math.Sqrt2), math.Max(hi[k], pt[k]+s.R*math.Sqrt2)
+			}
+		case "vline":
+			// what a domain containing the shape needs at least; VarryingThicknessLine declares
+			// (max radius + strength) / 2 around every point
+			lo[k], hi[k] = math.Inf(1), math.Inf(-1)
+			for i, pt := range s.Pts {
+				lo[k], hi[k] = math.Min(lo[k], pt[k]-s.Rs[i]), math.Max(hi[k], pt[k]+s.Rs[i])
+			}
 		default:
 			lo[k], hi[k] = math.Min(p[k], q[k])-s.R, math.Max(p[k], q[k])+s.R
 		}
@@ -77,11 +127,13 @@ func inDomain(lo, hi, v vec, grow float64) bool {
 }
 
 type reference struct {
-	d      Desc
-	lo, hi []vec // declared domains
-	blo    []ipt // sample ranges of the members (add mode)
-	bhi    []ipt
-	lip    float64 // Lipschitz constant of the true union (largest strength)
+	d        Desc
+	lo, hi   []vec   // declared domains of the members (reference)
+	blo, bhi []ipt   // sample ranges of the added fields (from the implementation's Field.Domain)
+	lip      float64 // Lipschitz constant of the true field (largest strength)
+	// the below-cutoff region of the reference is not inside the sample range of the field: the hypothesis of
+	// the property does not hold for what the constructor declared
+	domainTooSmall string
 }
 
 func newReference(d Desc, fs []marching.Field) (*reference, string) {
@@ -92,69 +144,195 @@ func newReference(d Desc, fs []marching.Field) (*reference, string) {
 		r.lo, r.hi = append(r.lo, lo), append(r.hi, hi)
 		r.lip = math.Max(r.lip, s.S)
 	}
-	if d.Mode == "add" || len(d.Shapes) == 1 {
+	for _, f := range fs {
+		a, b := bounds(f, d.Cpu)
+		r.blo, r.bhi = append(r.blo, a), append(r.bhi, b)
+	}
+	if (d.Mode == "add" || len(d.Shapes) == 1) && d.Mode != "mirror" && d.Shift == [3]float64{} {
 		for i, f := range fs {
-			if i >= len(d.Shapes) {
-				break
+			if i >= len(d.Shapes) || d.Shapes[i].Kind == "vline" {
+				continue
 			}
 			mn, mx := f.Domain.Min(), f.Domain.Max()
 			got := [2]vec{{mn.X(), mn.Y(), mn.Z()}, {mx.X(), mx.Y(), mx.Z()}}
+			wlo, whi := r.lo[i], r.hi[i]
+			if sh := d.Shapes[i]; sh.Kind == "sphere" && sh.S < 1 && math.Abs(got[0][0]-(sh.P[0]-sh.R)) <= 1e-9 {
+				// fixes/C09-sphere-domain-strength.patch: the domain of a sphere is never smaller than the sphere
+				for k := 0; k < 3; k++ {
+					wlo[k], whi[k] = sh.P[k]-sh.R, sh.P[k]+sh.R
+				}
+			}
 			for k := 0; k < 3; k++ {
-				if math.Abs(got[0][k]-r.lo[i][k]) > 1e-9 || math.Abs(got[1][k]-r.hi[i][k]) > 1e-9 {
+				if math.Abs(got[0][k]-wlo[k]) > 1e-9 || math.Abs(got[1][k]-whi[k]) > 1e-9 {
 					complaint = fmt.Sprintf("declared domain of member %d is %v..%v, reference %v..%v", i, got[0], got[1], r.lo[i], r.hi[i])
 				}
 			}
-			a, b := bounds(f, d.Cpu)
-			r.blo, r.bhi = append(r.blo, a), append(r.bhi, b)
 		}
 	}
 	return r, complaint
 }
 
-// the true union / the single member: minimum of the members everywhere
+func (r *reference) unshift(v vec) vec { return vsub(v, vec(r.d.Shift)) }
+
+// the true field: union / difference / mirror image of the members' exact distances, everywhere
 func (r *reference) trueUnion(v vec) float64 {
+	v = r.unshift(v)
+	sh := r.d.Shapes
+	switch r.d.Mode {
+	case "subtract":
+		return math.Max(refShape(sh[0], v), -refShape(sh[1], v))
+	case "mirror":
+		v[r.d.Axis] = math.Abs(v[r.d.Axis])
+		return refShape(sh[0], v)
+	}
 	m := math.Inf(1)
-	for _, s := range r.d.Shapes {
+	for _, s := range sh {
 		m = math.Min(m, refShape(s, v))
 	}
 	return m
 }
 
-// what a lattice sample must be; ok = false where membership of a declared domain is a matter of rounding
+// value of member i as its constructor defines it (MultiSegmentLine only looks at the segments whose culling
+// box contains the point and returns MaxFloat64 when there is none); ok = false where that is a matter of rounding
+func (r *reference) member(i int, v vec) (float64, bool) {
+	s := r.d.Shapes[i]
+	if s.Kind != "multiline" {
+		return refShape(s, v), true
+	}
+	strict, loose := math.MaxFloat64, math.MaxFloat64
+	pad := s.R * math.Sqrt2
+	for k := 1; k < len(s.Pts); k++ {
+		a, b := vec(s.Pts[k-1]), vec(s.Pts[k])
+		var lo, hi vec
+		for c := 0; c < 3; c++ {
+			lo[c], hi[c] = math.Min(a[c], b[c])-pad, math.Max(a[c], b[c])+pad
+		}
+		if inDomain(lo, hi, v, 1e-9) {
+			x := s.S * refCapsule(a, b, s.R, s.R, v)
+			loose = math.Min(loose, x)
+			if inDomain(lo, hi, v, -1e-9) {
+				strict = math.Min(strict, x)
+			}
+		}
+	}
+	return strict, strict == loose
+}
+
+// what the field function of added field number f must return at v
+func (r *reference) fieldValue(f int, v vec) (float64, bool) {
+	v = r.unshift(v)
+	switch r.d.Mode {
+	case "subtract":
+		a, ok1 := r.member(0, v)
+		b, ok2 := r.member(1, v)
+		return math.Max(a, -b), ok1 && ok2
+	case "mirror":
+		v[r.d.Axis] = math.Abs(v[r.d.Axis])
+		return r.member(0, v)
+	case "combine":
+		if len(r.d.Shapes) > 1 {
+			strict, loose, ok := math.Inf(1), math.Inf(1), true
+			for i := range r.d.Shapes {
+				if inDomain(r.lo[i], r.hi[i], v, 1e-9) {
+					x, o := r.member(i, v)
+					ok = ok && o
+					loose = math.Min(loose, x)
+					if inDomain(r.lo[i], r.hi[i], v, -1e-9) {
+						strict = math.Min(strict, x)
+					}
+				}
+			}
+			if math.IsInf(strict, 1) {
+				strict = 10
+			}
+			if math.IsInf(loose, 1) {
+				loose = 10
+			}
+			return strict, ok && strict == loose
+		}
+	}
+	return r.member(f, v)
+}
+
+// what a lattice sample must be: the sum of the added fields over their sample ranges
 func (r *reference) sample(p ipt) (val float64, ok bool) {
 	cpu := r.d.Cpu
 	v := vec{float64(p[0]) / cpu, float64(p[1]) / cpu, float64(p[2]) / cpu}
-	if r.d.Mode == "combine" && len(r.d.Shapes) > 1 {
-		strict, loose := math.Inf(1), math.Inf(1)
-		for i, s := range r.d.Shapes {
-			if inDomain(r.lo[i], r.hi[i], v, 1e-9) {
-				x := refShape(s, v)
-				loose = math.Min(loose, x)
-				if inDomain(r.lo[i], r.hi[i], v, -1e-9) {
-					strict = math.Min(strict, x)
-				}
-			}
-		}
-		if math.IsInf(strict, 1) {
-			strict = 10
-		}
-		if math.IsInf(loose, 1) {
-			loose = 10
-		}
-		return strict, strict == loose
-	}
-	sum := 0.0
-	for i, s := range r.d.Shapes {
-		if i >= len(r.blo) {
-			break
-		}
-		a, b := r.blo[i], r.bhi[i]
+	sum, ok := 0.0, true
+	for f := range r.blo {
+		a, b := r.blo[f], r.bhi[f]
 		if p[0] < a[0] || p[0] >= b[0] || p[1] < a[1] || p[1] >= b[1] || p[2] < a[2] || p[2] >= b[2] {
 			continue
 		}
-		sum += refShape(s, v)
+		x, o := r.fieldValue(f, v)
+		sum += x
+		ok = ok && o
 	}
-	return sum, true
+	return sum, ok
+}
+
+// Is the below-cutoff region of the true field inside what gets sampled?  Scans the lattice points of the
+// reference's own bounding boxes of the members.
+func (r *reference) checkDomain() string {
+	cpu := r.d.Cpu
+	for i, s := range r.d.Shapes {
+		if r.d.Mode == "subtract" && i == 1 {
+			continue
+		}
+		lo, hi := r.lo[i], r.hi[i]
+		if s.Kind == "sphere" {
+			for k := 0; k < 3; k++ {
+				lo[k], hi[k] = s.P[k]-s.R, s.P[k]+s.R
+			}
+		}
+		if s.Kind == "box" {
+			for k := 0; k < 3; k++ {
+				lo[k], hi[k] = s.P[k]-s.Q[k]/2, s.P[k]+s.Q[k]/2
+			}
+		}
+		var a, b ipt
+		for k := 0; k < 3; k++ {
+			a[k] = int(math.Floor((lo[k]+r.d.Shift[k])*cpu)) - 1
+			b[k] = int(math.Ceil((hi[k]+r.d.Shift[k])*cpu)) + 1
+			if b[k]-a[k] > 400 {
+				return ""
+			}
+		}
+		for z := a[2]; z <= b[2]; z++ {
+			for y := a[1]; y <= b[1]; y++ {
+				for x := a[0]; x <= b[0]; x++ {
+					p := ipt{x, y, z}
+					v := vec{float64(x) / cpu, float64(y) / cpu, float64(z) / cpu}
+					if r.d.Mode == "mirror" {
+						continue
+					}
+					if r.trueUnion(v) >= r.d.Cutoff {
+						continue
+					}
+					sampled := false
+					for f := range r.blo {
+						lo, hi := r.blo[f], r.bhi[f]
+						if p[0] > lo[0] && p[0] < hi[0]-1 && p[1] > lo[1] && p[1] < hi[1]-1 && p[2] > lo[2] && p[2] < hi[2]-1 {
+							sampled = true
+						}
+					}
+					if !sampled {
+						return fmt.Sprintf("lattice point %v is below the cutoff in the true field (%.4g) but not strictly inside the sampled range of the declared domain", p, r.trueUnion(v))
+					}
+				}
+			}
+		}
+	}
+	return ""
+}
+
+func (r *reference) tol() float64 {
+	for _, s := range r.d.Shapes {
+		if s.Kind == "vline" {
+			return 1e-7 // the rounded-cone formula of math/sdf squares lengths several times
+		}
+	}
+	return 1e-9
 }
 
 // (a): every output vertex within one cell of the true isosurface.  Judged for true unions and single members.
@@ -203,7 +381,7 @@ func (r *reference) checkGrid(dense *grid, volCells float64, tris int) []string 
 					continue
 				}
 				got := dense.val[i]
-				if math.Abs(got-want) > 1e-9*(1+math.Abs(want)) {
+				if math.IsNaN(got) || (math.Abs(got-want) > r.tol()*(1+math.Abs(want)) && !(got == want)) {
 					mism++
 					if first == "" {
 						first = fmt.Sprintf("lattice point %v: field function gives %.12g, reference %.12g", p, got, want)
